@@ -607,13 +607,14 @@ NAME_FAMILIES = [['A', 'BA', 'CBA', 'AB', 'ABC', 'B', 'CB'], ['X', 'X1', 'X10', 
 
 def member_names(rng: random.Random, n: int) -> list[str]:
 	"""`M0 … Mk` most of the time; otherwise names of one family in a random declaration order (so that a name is a proper suffix / prefix
-	of EARLIER and of later siblings), topped up with `Ni`."""
+	of EARLIER and of later siblings), topped up with `Wi`."""
 	if rng.random() < 0.6:
 		return [f'M{i}' for i in range(n)]
 	fam = list(rng.choice(NAME_FAMILIES))
 	rng.shuffle(fam)
 	names = fam[:n]
-	names += [f'N{i}' for i in range(n - len(names))]  # distinct from every family name
+	names += [f'W{i}' for i in range(n - len(names))]  # distinct from every family name
+	assert len(set(names)) == len(names)
 	rng.shuffle(names)
 	return names
 
@@ -1830,7 +1831,7 @@ def run(ctx: Ctx) -> int:
 		statements=STATEMENTS,
 		partial={
 			'proved': 'a different value is never produced: agreement of value and type (no guard; string tokens with octal, \\xhh, \\uhhhh, \\Uhhhhhhhh and one-character escapes included), or refusal, for every expression of the model (literals, unary sign, parentheses, the ten operators in flat chains, casts, member references), for every interpretation of float',
-			'correspondence_only': 'that execImpl is LiteralEvaluator on the Procedure machine and evalPy is CPython (incl. floor %, shifts, two\'s-complement bitwise ops, int()/float()/str() spellings); the control flow of the 20 hand-transcribed methods of LiteralEvaluator and of the value branch of Py2Cpp.on_relay is additionally pinned by the translators (normalised source against translate/c17_modelled_source.json, handler set: a change = broken tie); operator tables, ladders, quote lists, cast names/arity, join patterns, the template, the Unicode digit blocks, the blanks of int() and the one-character escapes are generated on every run',
+			'correspondence_only': 'that execImpl is LiteralEvaluator on the Procedure machine and evalPy is CPython (incl. floor %, shifts, two\'s-complement bitwise ops, int()/float()/str() spellings); the control flow of the 20 hand-transcribed methods of LiteralEvaluator, of Enum.var_value (the member lookup by exact name) and of the value branch of Py2Cpp.on_relay is additionally pinned by the translators (normalised source against translate/c17_modelled_source.json, handler set: a change = broken tie); operator tables, ladders, quote lists, cast names/arity, join patterns, the template, the Unicode digit blocks, the blanks of int() and the one-character escapes are generated on every run',
 			'search_only': 'IEEE behaviour of the real floats; that the C++ reader cppBytes is what a C++ compiler does is tied to g++ by the stream cppread (and the search reads every emitted string literal with an independent reader written from the standard, checked against g++ in the same stream)',
 			'outside': 'string tokens with \\N{...} or an escape of a lone surrogate (evalPy answers unsupported; never generated)',
 		},
